@@ -200,8 +200,84 @@ def check(case: t.Any, ctx: Ctx) -> None:
                          f"{short(inst4, 120) if k4 == 'ok' else type(inst4).__name__ + ': ' + str(inst4)[:150]}")
 
 
+# ---- fields with a converter of their own --------------------------------------------------------------------------------
+#
+# field(converter=...) replaces the conversion of that field on every checked path (constructor, mapping data, sequence data)
+# - once - and make_unchecked still stores its arguments verbatim.  The converter is not idempotent on its own output (it
+# scales), so applying it twice, or where nothing should be applied, shows.
+
+_FC: t.Dict[str, t.Any] = {}
+
+
+def _fc_class() -> t.Any:
+    if 'cls' not in _FC:
+        import pane
+        from pane.converters import Converter
+        from pane.errors import ParseInterrupt, WrongTypeError
+
+        class Cents(Converter[int]):
+            def expected(self, plural: bool = False) -> str:
+                return 'prices' if plural else 'a price'
+
+            def try_convert(self, val: t.Any) -> int:
+                if type(val) in (int, float):
+                    return int(round(val * 100))
+                raise ParseInterrupt()
+
+            def collect_errors(self, val: t.Any) -> t.Any:
+                return None if type(val) in (int, float) else WrongTypeError('a price', val)
+
+            def into_data(self, val: t.Any) -> t.Any:
+                return val / 100
+        _FC['cls'] = type('Priced', (pane.PaneBase,), {'__annotations__': {'name': str, 'price': int, 'tags': t.List[str]},
+                                                         'price': pane.field(converter=Cents()), 'tags': pane.field(default_factory=list)},
+                          in_format=('struct', 'tuple'))
+    return _FC['cls']
+
+
+@st.composite
+def fc_cases(draw) -> t.Any:
+    return [draw(st.sampled_from(['keyword', 'positional', 'mapping', 'sequence', 'unchecked', 'unchecked-object', 'replace'])),
+            draw(st.integers(0, 50)), draw(st.booleans())]
+
+
+def check_field_converter(case: t.Any, ctx: Ctx) -> None:
+    (path, p, with_tags) = case
+    Cls = _fc_class()
+    ctx.label(f"field-converter:{path}")
+    ctx.nontrivial(True)
+    ctx.evaluated()
+    tags = ['t'] if (with_tags and path != 'replace') else []
+    want = p * 100
+    call = {
+        'keyword': lambda: Cls(name='n', price=p, **({'tags': tags} if with_tags else {})),
+        'positional': lambda: Cls('n', p, *([tags] if with_tags else [])),
+        'mapping': lambda: Cls.from_data({'name': 'n', 'price': p, **({'tags': tags} if with_tags else {})}),
+        'sequence': lambda: Cls.from_data(['n', p, *([tags] if with_tags else [])]),
+        'unchecked': lambda: Cls.make_unchecked('n', p),
+        'unchecked-object': lambda: Cls.make_unchecked('n', _SENTINEL),
+        'replace': lambda: Cls('n', 1).__replace__(price=p),
+    }[path]
+    (k, x) = outcome(call)
+    if k != 'ok':
+        ctx.fail('field-converter', f"{path}:{type(x).__name__}", f"class Priced: price: int = field(converter=<x100>); path {path} with price={p}: raised {type(x).__name__}: {str(x)[:150]}")
+        return
+    expect = {'unchecked': p, 'unchecked-object': _SENTINEL}.get(path, want)
+    if x.price is not expect and x.price != expect:
+        ctx.fail('field-converter', path, f"class Priced: price: int = field(converter=<x100>); path {path} with price={p!r}: the field holds {x.price!r}, expected {expect!r} "
+                 f"({'stored verbatim' if path.startswith('unchecked') else 'converted once by the field converter'})")
+        return
+    if not path.startswith('unchecked') and x != Cls.from_data({'name': 'n', 'price': p, 'tags': tags}):
+        ctx.fail('field-converter', f"{path}:vs-mapping", f"path {path} gives {x!r}, mapping data gives {Cls.from_data({'name': 'n', 'price': p, 'tags': tags})!r}")
+
+
+_SENTINEL = object()
+
+
 def suites(tier: str) -> t.List[Suite]:
     big = tier == 'thorough'
     inner = cg.class_specs(tg.type_specs(2), max_fields=3)
     ftypes = st.one_of(tg.type_specs(4 if big else 3), tg.type_specs(2, classes=inner))
-    return [Suite('construct', check, strategy=lambda: cases(ftypes), examples=8000 if big else 600, budget_s=480 if big else 40, render=render)]
+    return [Suite('construct', check, strategy=lambda: cases(ftypes), examples=8000 if big else 600, budget_s=480 if big else 40, render=render),
+            Suite('field-converter', check_field_converter, strategy=fc_cases, examples=400 if big else 40, budget_s=30 if big else 10,
+                  render=lambda c: {'path': c[0], 'price': c[1], 'tags given': c[2]})]
